@@ -142,6 +142,75 @@ def generate(ctx):
             i += 1
     if ctx.shard == 0:
         yield 'coverage', {}
+    # first touch of the lazily loaded neutron group through each kind of object, in a fresh interpreter each
+    probes = [[1, 2, 0], [3, 6, 0], [26, 55, 0], [26, 0, 2], [28, 62, 2], [85, 0, 0], [64, 157, 0], [62, 0, 0]]
+    if ctx.thorough():
+        probes += [[1, 3, 0], [1, 2, 1], [5, 10, 0], [92, 238, 0], [92, 0, 6], [63, 151, 0], [71, 176, 3], [2, 3, 0],
+                   [0, 1, 0], [118, 0, 0], [94, 0, 0], [96, 244, 0]]
+    for j, probe in enumerate(probes):
+        if ctx.mine(i + j):
+            yield 'first_touch', {'probe': probe}
+
+
+FIRST_TOUCH_SCRIPT = r'''
+import json, sys
+import periodictable as pt
+def atom(Z, A, q):
+    a = pt.elements[Z]
+    if A: a = a[A]
+    if q: a = a.ion[q]
+    return a
+def read(Z, A, q):
+    n = atom(Z, A, q).neutron
+    return dict(b_c=n.b_c, bp=n.bp, bm=n.bm, coherent=n.coherent, incoherent=n.incoherent, total=n.total,
+                absorption=n.absorption, has_sld=bool(n.has_sld()),
+                b_c_complex=None if n.b_c_complex is None else [n.b_c_complex.real, n.b_c_complex.imag])
+probe = json.loads(sys.argv[1])
+out = [[probe, read(*probe)]]
+for k in json.loads(sys.argv[2]):
+    out.append([k, read(*k)])
+print(json.dumps(out))
+'''
+FIRST_TOUCH_OTHERS = [[1, 0, 0], [1, 2, 0], [1, 6, 0], [3, 6, 0], [26, 0, 0], [26, 55, 0], [26, 56, 3], [28, 62, 0],
+                      [64, 157, 0], [62, 0, 0], [85, 0, 0], [88, 226, 0], [83, 0, 0]]
+
+
+def check_first_touch(ctx, case):
+    """The very first access to the neutron group of a fresh interpreter goes through the probe atom
+    (element, isotope, ion, isotope ion, with or without data); it and a fixed list of atoms read
+    afterwards must report their own rows."""
+    import json
+    import math
+    import subprocess
+    import sys
+    m = _state['model']
+    p = subprocess.run([sys.executable, '-c', FIRST_TOUCH_SCRIPT, json.dumps(case['probe']), json.dumps(FIRST_TOUCH_OTHERS)],
+                       capture_output=True, text=True, timeout=300)
+    ctx.distinct_case(('first_touch', tuple(case['probe'])))
+    if p.returncode != 0:
+        ctx.evaluated(what='first-touch')
+        ctx.violation('first neutron access through %r in a fresh interpreter failed: %s' % (case['probe'], p.stderr[-400:]))
+        return
+    for (Z, A, q), got in json.loads(p.stdout.strip().splitlines()[-1]):
+        rec = m.record(Z, A)
+        for f in FIELDS:
+            ctx.evaluated(what='first-touch')
+            want = rec[f] if rec is not None else None
+            if not _same(got[f], want):
+                ctx.violation('first touch through %r: %r.neutron.%s is %r, its own row gives %r'
+                              % (case['probe'], (Z, A, q), f, got[f], want), field=f, atom=[Z, A, q])
+        ctx.evaluated(what='first-touch')
+        if rec is None and got['has_sld']:
+            ctx.violation('first touch through %r: %r is not in the neutron table but has_sld() is True'
+                          % (case['probe'], (Z, A, q)), atom=[Z, A, q])
+        if rec is not None and rec['b_c'] is not None and rec['absorption'] is not None:
+            ctx.evaluated(what='first-touch')
+            want = complex(rec['b_c'], -rec['absorption'] / (2000 * 1.798))
+            gc = got['b_c_complex']
+            if gc is None or any(isinstance(v, float) and math.isnan(v) for v in gc) or \
+                    abs(complex(gc[0], gc[1]) - want) > 1e-12 * max(1, abs(want)):
+                ctx.violation('first touch through %r: %r.neutron.b_c_complex is %r, expected %r'
+                              % (case['probe'], (Z, A, q), gc, want), atom=[Z, A, q], field='b_c_complex')
 
 
 def _atom(T, Z, A):
@@ -362,7 +431,8 @@ def check_coverage(ctx, case):
                  % (m.nrows, len(m.imag_rows), len(m.energy)))
 
 
-CHECKS = {'row': check_row, 'element': check_element, 'energy': check_energy, 'coverage': check_coverage}
+CHECKS = {'row': check_row, 'element': check_element, 'energy': check_energy, 'coverage': check_coverage,
+          'first_touch': check_first_touch}
 
 
 def finish(ctx):
